@@ -51,6 +51,7 @@ ASSUMPTIONS = [
     "a scenario is an @setup/@teardown scenario by its OWN tags (outline rows: the generated scenario's tags, i.e. outline + examples-block tags); tags inherited from the feature or a rule do not exempt the scenarios below from being skipped",
     "a file named in two non-adjacent positions of a location list may be loaded twice; demanded is only that, per file, the scenarios executed at least once are exactly the union of the selections",
     "scenario names used by the name-selection oracle are the names behave reports (outline rows: default annotation schema)",
+    "harness discipline: the model objects that are run are never read by the check between parsing and ModelRunner.run() (walking a feature expands its outlines and fills ScenarioOutline's cache); expected sets come from the rendered document, should_skip and names from a second, separately parsed/loaded copy, executed scenarios are identified by (file, line, name) reported by the step functions, statuses are read after the run",
     "wildcards in @listfile entries and Windows drive letters in locations are not covered",
 ]
 
@@ -311,7 +312,8 @@ _LOG = []
 
 
 def _step_impl(context, **kw):
-    _LOG.append((os.path.abspath(context.feature.filename), context.scenario.line))
+    # executed scenarios are identified by file + line + name as the step function sees them at run time
+    _LOG.append((os.path.abspath(context.feature.filename), context.scenario.line, u"%s" % context.scenario.name))
 
 
 def init_worker():
@@ -430,27 +432,38 @@ def observe_selection(sb, selection, via, config, reg, do_run=True):
     executed = scenarios of which a step function was called during a real run of all returned features"""
     from behave.runner_util import collect_feature_locations, parse_features
     paths = make_paths(sb, selection, via)
-    locations = collect_feature_locations(paths)
-    features = parse_features(locations)
-    by_file = {}
-    for f in features:
-        idx = sb.abs.index(os.path.abspath(f.filename))
-        by_file.setdefault(idx, []).append(f)
-    models = dict((idx, [_walk_model(f) for f in feats]) for idx, feats in by_file.items())
+
+    def load():
+        feats = parse_features(collect_feature_locations(paths))
+        by_file = {}
+        for f in feats:
+            by_file.setdefault(sb.abs.index(os.path.abspath(f.filename)), []).append(f)     # filename only: no walk
+        return feats, by_file
+
+    # The model objects that are RUN are not touched by this harness between parse_features() and run(): walking a
+    # feature expands its outlines (ScenarioOutline.scenarios fills a cache) and can mask defects of lazy expansion.
+    # should_skip is therefore read from a SECOND, separately loaded copy of the same selection.
+    executed = run_by_file = None
+    if do_run:
+        run_feats, run_by_file = load()
+        executed = run_features(run_feats, config, reg)
+    pre_feats, pre_by_file = load()
     obs = {}
-    pre = {}
-    for idx, ms in models.items():
+    for idx, feats in pre_by_file.items():
+        ms = [_walk_model(f) for f in feats]
         kept = set()
         for m in ms:
             kept |= set(line for line, s in m if not s.should_skip)
-        pre[idx] = (tuple(sorted(kept)), tuple(tuple(line for line, _ in m) for m in ms))
-    executed = run_features(features, config, reg) if do_run else None
-    for idx, ms in models.items():
         ex = st = None
         if do_run:
-            ex = tuple(sorted(set(l for (p, l) in executed if p == sb.abs[idx])))
-            st = tuple(tuple((line, s.status.name) for line, s in m) for m in ms)
-        obs[idx] = (pre[idx][0], ex, st, pre[idx][1], len(ms))
+            ex = tuple(sorted(set(l for (p, l, _) in executed if p == sb.abs[idx])))
+            st = tuple(tuple((line, s.status.name) for line, s in _walk_model(f))     # after the run
+                       for f in run_by_file.get(idx, ()))
+        obs[idx] = (tuple(sorted(kept)), ex, st, tuple(tuple(line for line, _ in m) for m in ms), len(ms))
+    if do_run:
+        for idx in run_by_file:
+            if idx not in obs:
+                obs[idx] = ((), tuple(sorted(set(l for (p, l, _) in executed if p == sb.abs[idx]))), (), (), 0)
     return obs
 
 
@@ -517,7 +530,7 @@ def judge_single(doc, line, ob):
                       "%s: should_skip flags are right but the scenarios whose steps ran are %r, expected %r; first "
                       "difference: line %d %r" % (where, sorted(ex), sorted(must_run), l, doc.scen[l][0])))
         else:
-            for l, status in st[0]:
+            for l, status in (st[0] if st else ()):
                 expect = "passed" if l in must_run else "skipped"
                 if status != expect:
                     v.append((dict(base, clause="scenario-status", expected=expect, status=status),
@@ -693,11 +706,16 @@ def check_names(case):
         try:
             config = Configuration(args, load_config=False)
             config.reporters = []
+            # expectations come from the rendered document and a SEPARATE parsed copy; the feature that is run is
+            # handed to the runner untouched (as `behave -n PATTERN file.feature` does: nothing has expanded its
+            # outlines yet) and is only walked AFTER the run, for the statuses
+            names = dict((l, u"%s" % s.name)
+                         for l, s in _walk_model(parse_feature(doc.text, filename=u"features/a.feature")))
             feature = parse_feature(doc.text, filename=u"features/a.feature")
-            model = _walk_model(feature)
-            names = dict((l, s.name) for l, s in model)
-            executed = set(l for _, l in run_features([feature], config, reg))
-            status = dict((l, s.status.name) for l, s in model)
+            log = run_features([feature], config, reg)
+            executed = set(l for _, l, _ in log)
+            ran_names = dict((l, n) for _, l, n in log)
+            status = dict((l, s.status.name) for l, s in _walk_model(feature))
         except Exception as e:
             results.append({"case": sub, "v": [({"subcheck": "name-select", "clause": "raises",
                                                  "exc": type(e).__name__, "npatterns": str(len(pats))},
@@ -708,6 +726,12 @@ def check_names(case):
         base = {"subcheck": "name-select"}
         if sorted(names) != sorted(doc.scen):
             v.append((dict(base, clause="model-scenario-lines"), "lines differ %r %r" % (sorted(names), sorted(doc.scen))))
+        for l, n in sorted(ran_names.items()):
+            if names.get(l) != n:
+                v.append((dict(base, clause="executed-scenario-name", scenario=doc.scen.get(l, ("", (), "?"))[2]),
+                          "--name %r: the scenario executed at line %d calls itself %r, the separately parsed copy "
+                          "names it %r" % (pats, l, n, names.get(l))))
+                break
         want = set()
         for l, n in names.items():
             if l in doc.scen and n != doc.scen[l][0]:
